@@ -27,12 +27,18 @@ type Plan struct {
 	// SitePoints: pre-empt at the k-th execution of an interesting yield site
 	SitePoints map[int][]int64
 	SiteCount  map[int]int64 // executions per interesting site (filled while running)
-	next       int
-	nextW      int
-	Count      int64 // yields executed so far (all kinds)
-	CountW     int64 // interesting yields executed so far
-	Hits       int   // pre-emptions actually taken
-	Sites      []int // site ids at the taken pre-emptions
+	// ReturnAfter: after the i-th site-placed pre-emption, pre-empt again that many
+	// yields later (gives the interrupted task a chance to come back while the
+	// other one is still in the middle of its work)
+	ReturnAfter []int64
+	siteHits    int
+	pending     []int64
+	next        int
+	nextW       int
+	Count       int64 // yields executed so far (all kinds)
+	CountW      int64 // interesting yields executed so far
+	Hits        int   // pre-emptions actually taken
+	Sites       []int // site ids at the taken pre-emptions
 }
 
 var plan *Plan
@@ -56,8 +62,16 @@ func YieldG(site int) {
 		return
 	}
 	p.Count++
+	hit := false
 	if p.next < len(p.Points) && p.Count >= p.Points[p.next] {
 		p.next++
+		hit = true
+	}
+	if len(p.pending) > 0 && p.Count >= p.pending[0] {
+		p.pending = p.pending[1:]
+		hit = true
+	}
+	if hit {
 		p.Hits++
 		p.Sites = append(p.Sites, site)
 		Yield(site)
@@ -93,8 +107,16 @@ func YieldW(site int) {
 		for _, k := range ks {
 			if k == c {
 				hit = true
+				if p.siteHits < len(p.ReturnAfter) && p.ReturnAfter[p.siteHits] > 0 {
+					p.pending = append(p.pending, p.Count+p.ReturnAfter[p.siteHits])
+				}
+				p.siteHits++
 			}
 		}
+	}
+	if len(p.pending) > 0 && p.Count >= p.pending[0] {
+		p.pending = p.pending[1:]
+		hit = true
 	}
 	if hit {
 		p.Hits++
